@@ -320,6 +320,80 @@ impl Upstream {
 
 /// Sources whose ids contain characters that mean something to the router: requests for *other*, non-existent
 /// sources and for coordinates without tile must still get a complete 404 / 400, the ordinary source its tiles.
+
+/// A pipeline file that merges two vector-tile sources of different stored compressions, served as a tile source:
+/// for coordinates held by the first member only, by both, and by the second only, the served body - decoded by
+/// its Content-Encoding - is a vector tile whose decoded content is the merge of the members' tiles (decoded by
+/// the independent MVT reader), with the media type of vector tiles.
+fn c05_merged(ctx: &Arc<Ctx>, work: &Path) {
+	use super::c10::{catalogue, compare_layers, reference_merge};
+	let cat = catalogue();
+	let (ta, tb) = (crate::mvt::encode_tile(&cat[0].1), crate::mvt::encode_tile(&cat[1].1));
+	let (da, db) = (crate::mvt::decode_tile(&ta).unwrap(), crate::mvt::decode_tile(&tb).unwrap());
+	let keys: [(Key, bool, bool); 4] = [((3, 1, 2), true, false), ((3, 2, 2), true, true), ((3, 3, 2), false, true), ((9, 255, 256), true, true)];
+	for (name, comp, suffix, which) in [("mg_a", 1u8, ".gz", 0usize), ("mg_b", 2u8, ".br", 1usize)] {
+		let files: Vec<(String, Vec<u8>)> = keys.iter().filter(|k| if which == 0 { k.1 } else { k.2 }).map(|k| (format!("{}/{}/{}.pbf{suffix}", k.0 .0, k.0 .1, k.0 .2), codec::encode_with(comp, if which == 0 { &ta } else { &tb }))).collect();
+		codec::dir_write(&work.join(name), &files).unwrap();
+	}
+	std::fs::write(work.join("merged.vpl"), "from_vectortiles_merged [ from_container filename=\"mg_a\", from_container filename=\"mg_b\" ]").unwrap();
+	for mode in ["best", "fast"] {
+		let mut args: Vec<String> = vec!["[merged]merged.vpl".into()];
+		if mode == "fast" {
+			args.push("--fast".into());
+		}
+		let server = match Server::start(work, &args, &format!("c05-merged-{mode}")) {
+			Ok(s) => s,
+			Err(e) => {
+				ctx.violation("a pipeline file merging two vector tile sources cannot be added to the server", &format!("versatiles serve {args:?}: {}", e.chars().take(300).collect::<String>()), json!({"mode": mode, "source": "merged.vpl"}));
+				return;
+			}
+		};
+		let mut cl = Client::connect(server.port).expect("connect");
+		for round in 0..2 {
+			for (k, in_a, in_b) in keys {
+				for ae in [None, Some("gzip"), Some("br"), Some("identity"), Some("br, gzip"), Some("zstd")] {
+					ctx.eval();
+					ctx.transition(1);
+					let target = format!("/tiles/merged/{}/{}/{}", k.0, k.1, k.2);
+					let case = json!({"mode": mode, "source": "merged.vpl", "target": target, "accept_encoding": ae, "round": round});
+					let hdrs: Vec<(&str, &str)> = ae.map(|v| vec![("Accept-Encoding", v)]).unwrap_or_default();
+					match cl.request(&target, &hdrs).unwrap_or_else(|e| Reply::Dropped(e)) {
+						Reply::Dropped(why) => {
+							ctx.violation("tile request is answered by a dropped connection (merged pipeline source)", &format!("{mode} GET {target}: {why}"), case);
+							cl = Client::connect(server.port).expect("connect");
+						}
+						Reply::Response(r) => {
+							if r.status != 200 {
+								ctx.violation("stored tile is not served with status 200", &format!("{mode} GET {target} (merged pipeline source): status {}", r.status), case);
+								continue;
+							}
+							if r.header("content-type").map(|v| v.to_ascii_lowercase()) != Some("application/x-protobuf".into()) {
+								ctx.violation("Content-Type is not the tile format's media type", &format!("{mode} GET {target}: {:?}", r.header("content-type")), case.clone());
+							}
+							if let Some(ce) = r.header("content-encoding") {
+								let listed = ae.map(|a| a.to_ascii_lowercase().contains(&ce.to_ascii_lowercase())).unwrap_or(false);
+								if !listed && !ce.eq_ignore_ascii_case("identity") {
+									ctx.violation("Content-Encoding is an encoding the client did not list", &format!("{mode} GET {target} AE={ae:?}: content-encoding {ce}"), case.clone());
+								}
+							}
+							let want = reference_merge(&[in_a.then(|| da.clone()), in_b.then(|| db.clone())].into_iter().flatten().collect::<Vec<_>>());
+							match decode_body(&r).map_err(|e| e.to_string()).and_then(|b| crate::mvt::decode_tile(&b)) {
+								Err(e) => ctx.violation("served body, decoded by Content-Encoding, differs from the stored tile", &format!("{mode} GET {target} AE={ae:?} (merged pipeline source): the body is no vector tile: {e}"), case),
+								Ok(layers) => {
+									if let Some(why) = compare_layers(&layers, &want) {
+										ctx.violation("served body, decoded by Content-Encoding, differs from the stored tile", &format!("{mode} GET {target} AE={ae:?} (merged pipeline source): {why}"), case);
+									}
+								}
+							}
+						}
+					}
+				}
+			}
+		}
+	}
+	ctx.outcome_n("merged pipeline source: requests", 2 * 2 * 4 * 6);
+}
+
 fn c05_odd_ids(ctx: &Arc<Ctx>, work: &Path, rt: &tokio::runtime::Runtime) {
 	let stored: Vec<Key> = vec![(3, 1, 2), (3, 2, 5)];
 	let tiles: TileMap = stored.iter().map(|k| (*k, content_of(*k))).collect();
@@ -904,6 +978,7 @@ pub fn c05(ctx: Arc<Ctx>) {
 	ctx.extra("accept_encoding_values", json!(aes.len()));
 	c05_remote(&ctx, &work.0, &rt);
 	c05_odd_ids(&ctx, &work.0, &rt);
+	c05_merged(&ctx, &work.0);
 	ctx.exhaustive(true);
 	let _ = (Tier::Quick, &srcs[0].tiles);
 	drop(work);
